@@ -77,6 +77,8 @@ def eworld (nb : Nat) (regs : List Reg) (ch : String) (clock step : Int) : World
   unstar _ := throw "TypeError"
   format _ := throw "TypeError"
   concat _ := throw "TypeError"
+  dict _ := throw "TypeError"
+  whileLoop _ _ _ := throw "Unsupported"
   other s := if s == "{}" then pure (.userData false) else throw "Unsupported"
   throw cls := throw cls
   rethrow := throw "reraise"
